@@ -315,6 +315,46 @@ func Run(r *rt.Run) error {
 		}
 		emitS(items, fmt.Sprintf("so/%d", oi))
 	}
+	// times around the Unix epoch (a timestamp of 0 ns is a time like any other) - model time k of Unix second u
+	unix := func(u int) int { return tk(time.Unix(int64(u), 0)) }
+	for ui, us := range [][]int{{0, 1}, {-1, 0, 1}, {0, 0}, {5, 0}, {-3, -1}} {
+		var items []sItem
+		for _, u := range us {
+			items = append(items, sItem{"db", "rp", "m", map[string]string{"host": "a"}, map[string]any{"f": int64(u)}, unix(u)})
+		}
+		emitS(items, fmt.Sprintf("sepoch/%d", ui))
+	}
+	// large recordings: thousands of points whose three-line records (database, retention policy, line protocol) have
+	// every length, so that the reader's buffer boundaries fall at every position of a record
+	nLarge, szLarge := 2, 1500
+	if r.Thorough() {
+		nLarge, szLarge = 25, 4000
+	}
+	letters := "abcdefghijklmnopqrstuvwxyzABCDEFGHIJKLMNOPQRSTUVWXYZ0123456789_-"
+	word := func(n int) string {
+		b := make([]byte, n)
+		for i := range b {
+			b[i] = letters[r.Rand.Intn(len(letters))]
+		}
+		return string(b)
+	}
+	for i := 0; i < nLarge; i++ {
+		var items []sItem
+		tm := 1000
+		for k := 0; k < szLarge; k++ {
+			tm += r.Rand.Intn(3)
+			f := map[string]any{"f": int64(k)}
+			if r.Rand.Intn(3) == 0 {
+				f["s"] = word(r.Rand.Intn(80))
+			}
+			items = append(items, sItem{word(1 + r.Rand.Intn(60)), word(1 + r.Rand.Intn(60)), word(1 + r.Rand.Intn(20)), map[string]string{"host": word(1 + r.Rand.Intn(12))}, f, tm})
+		}
+		out, errS, closed, recErr := replayStream(items, i%2 == 0, 4000)
+		t.Reset(nil)
+		t.Event("RecStream", rt.M{"recTime": i%2 == 0, "zero": 4000, "items": encSItems(items), "recErr": recErr})
+		t.Event("OutStream", rt.M{"items": out, "err": errS, "closed": closed})
+		t.Distinct(fmt.Sprintf("slarge/%d", i))
+	}
 	// ---- batch
 	emitB := func(items []bItem, key string) {
 		for _, rec := range modes {
@@ -349,6 +389,18 @@ func Run(r *rt.Run) error {
 		emitB([]bItem{{name: "m", gtags: gt, dims: []string{"host"}, tmax: 1010, pts: []sItem{
 			{tags: ptags, fields: map[string]any{"f": 1.5}, t: 1001}, {tags: gt, fields: map[string]any{"f": 2.5}, t: 1004}}}}, fmt.Sprintf("b/ptags/%d", pi))
 	}
+	// points of a batch in any time order (a query result ORDER BY time DESC, equal times): the order is part of the data
+	for oi, order := range [][]int{{1009, 1005, 1001}, {1005, 1001, 1009}, {1004, 1004, 1002, 1004}, {1001, 1009, 1009, 1001}} {
+		var pts []sItem
+		for k, tm := range order {
+			pts = append(pts, sItem{tags: gt, fields: map[string]any{"f": float64(k) + 0.5}, t: tm})
+		}
+		emitB([]bItem{{name: "m", gtags: gt, dims: []string{"host"}, tmax: 1010, pts: pts},
+			{name: "m", gtags: gt, dims: []string{"host"}, tmax: 1020, pts: []sItem{{tags: gt, fields: map[string]any{"f": 9.5}, t: 1015}, {tags: gt, fields: map[string]any{"f": 8.5}, t: 1012}}}}, fmt.Sprintf("b/order/%d", oi))
+	}
+	// batches around the Unix epoch
+	emitB([]bItem{{name: "m", gtags: gt, dims: []string{"host"}, tmax: unix(2), pts: []sItem{{tags: gt, fields: map[string]any{"f": 1.5}, t: unix(0)}, {tags: gt, fields: map[string]any{"f": 2.5}, t: unix(1)}}},
+		{name: "m", gtags: gt, dims: []string{"host"}, tmax: unix(0), pts: []sItem{{tags: gt, fields: map[string]any{"f": 1.5}, t: unix(-2)}, {tags: gt, fields: map[string]any{"f": 2.5}, t: unix(0)}}}}, "b/epoch")
 	// empty batches, two groups interleaved, tmax beyond the last point
 	g1 := map[string]string{"host": "a"}
 	g2 := map[string]string{"host": "b"}
